@@ -105,6 +105,10 @@ package query_context
 //@   requires ctx != nil && d != nil && d != ctx && ctx.query != nil
 //@   modifies d.id, d.startTime, d.ServerMeta, d.query, d.clientOpt, d.resp, d.respOpt, d.upstreamOpt, d.kv, d.marks
 //@   ensures result == d && fresh(d.query) && d.clientOpt == ctx.clientOpt && d.upstreamOpt == ctx.upstreamOpt
+// the copy's query is a DEEP copy: its records — in particular its own query OPT, into which the
+// forwarding plugins of one branch put options — are new objects, not shared with the original
+// context or with sibling copies
+//@   ensures forall k int :: 0 <= k && k < len(d.query.Extra) ==> fresh(d.query.Extra[k].val)
 //@   ensures ctx.resp != nil ==> fresh(d.resp)
 //@   ensures ctx.resp == nil ==> d.resp == old(d.resp)
 //@   ensures ctx.respOpt != nil ==> d.respOpt != nil && fresh(d.respOpt) && d.respOpt != ctx.respOpt
